@@ -17,8 +17,9 @@ Schedules ("schedule" key of the witness):
   forced_last_put  the shutdown race of design_notes/experiments/c03_forced_schedule_race.py, made
                    load-independent: ``multiprocessing.Queue``/``Event`` are wrapped (harness side,
                    inherited by fork) so that the producer pauses before the *last* put for the
-                   workers' queue time-out + 0.8 s, and a worker that calls ``is_set()`` during
-                   that final phase stays descheduled until the flag has been raised.  Both are
+                   workers' queue time-out + 0.8 s, and a worker whose receive has just timed out
+                   and that reads the flag during that final phase stays descheduled until the flag
+                   has been raised.  Both are
                    ordinary interleavings of producer, feeder, receive time-outs and the shutdown
                    signal; nothing inside toasty is modified.
 
@@ -167,6 +168,7 @@ class _Schedule(object):
         self.real_Event, self.real_Queue = mp.Event, mp.Queue
         self.armed = self.real_Event()
         self.calls = mp.Value("i", 0)
+        self.local = {"empty": False}
         sched = self
         k_delay, delay_s, wait_s, arm = spec["at_put"], spec["delay_s"], spec.get("wait_s", 0.0), spec.get("arm", False)
 
@@ -186,8 +188,9 @@ class _Schedule(object):
             def is_set(self):
                 with sched.calls.get_lock():
                     sched.calls.value += 1
-                if sched.armed.is_set() and not self._e.is_set():
-                    # this worker is descheduled until the flag has been raised (bounded)
+                if sched.armed.is_set() and sched.local["empty"] and not self._e.is_set():
+                    # this worker's last receive timed out and the producer is in its final phase:
+                    # the worker stays descheduled until the flag has been raised (bounded)
                     self._e.wait(wait_s)
                     time.sleep(0.05)
                 return self._e.is_set()
@@ -207,6 +210,16 @@ class _Schedule(object):
                     time.sleep(delay_s)
                 return self._q.put(item, *a, **k)
 
+            def get(self, *a, **k):
+                from queue import Empty
+                try:
+                    item = self._q.get(*a, **k)
+                except Empty:
+                    sched.local["empty"] = True      # process-local: every worker is its own process
+                    raise
+                sched.local["empty"] = False
+                return item
+
             def __getattr__(self, name):
                 return getattr(self._q, name)
 
@@ -223,6 +236,7 @@ class _Schedule(object):
 def _guarded(case, logdir, body):
     import multiprocessing as mp
     sched = _Schedule(case["sched"]) if case.get("sched") else None
+    before = set(p.pid for p in mp.active_children())      # leftovers of an earlier, failed case of this batch
     exc = None
     t0 = time.monotonic()
     try:
@@ -231,11 +245,16 @@ def _guarded(case, logdir, body):
     except Exception as e:
         exc = "%s: %s" % (type(e).__name__, e)
     t1 = time.monotonic()
-    alive = len(mp.active_children())
+    alive = len([p for p in mp.active_children() if p.pid not in before])
     if sched:
         sched.uninstall()
     if case.get("parallel", 1) > 1:
         time.sleep(0.25)          # give a worker that outlived the return the time to leave a trace
+    for p in mp.active_children():
+        try:
+            p.kill()
+        except Exception:
+            pass
     return {"events": read_events(logdir), "exception": exc, "t0": t0, "t1": t1, "alive_after": alive,
             "sched_calls": sched.n_calls() if sched else None}
 
@@ -936,7 +955,7 @@ def run(ctx):
     light = [c for c in short if not (c["stage"] == "multi_tan" or c.get("sched"))]
     batches += [[dict(c) for c in heavy[i:i + 3]] for i in range(0, len(heavy), 3)]
     batches += [[dict(c) for c in light[i:i + bs]] for i in range(0, len(light), bs)]
-    results = B.dispatch("rt.c03", "stage_case", None, os.path.join(ctx.workdir, "par"), watchdog, batch_size=bs, max_workers=16,
+    results = B.dispatch("rt.c03", "stage_case", None, os.path.join(ctx.workdir, "par"), watchdog, batch_size=bs, max_workers=24,
                          max_timeouts=CAP, est_case_secs=6.0, batches=batches)
     skipped = 0
     sched_calls = 0
